@@ -572,7 +572,9 @@ func c05Program(r *report.R, id string) {
 					mismatch += fmt.Sprintf("validator %s: delegated %s, surviving frames delegated %s; ", v.ValAddr.String()[len(v.ValAddr.String())-6:], got, w)
 				}
 			}
-			if sup := n.Supply(vn.Denom); !sup.Equal(supplyBefore) {
+			if sup := n.Supply(vn.Denom); !sup.Equal(supplyBefore) && !strings.Contains(p.shape(), "selfdestruct") {
+				// (a contract that self-destructs naming itself as beneficiary destroys its coins, in
+				// go-ethereum as here: only trees without self-destructs are held to a constant supply)
 				r.Violation(id, "evm+precompile-transactions|"+outcome+"|supply-changed", fmt.Sprintf("supply %s -> %s; %s", supplyBefore, sup, p.shape()), dbg)
 				break
 			}
